@@ -1,1 +1,112 @@
-static int op_prim_dispatch (int n, char **tok) { (void)n; (void)tok; return 0; }
+/* internal primitives: digests, MACs, PBKDF2, DES block function.
+   H <alg> <align> <chunk>...      -> d=<hex> ctxzero=<0|1>
+   HM <alg> <key> <text>           -> d=<hex>
+   PB <pw> <salt> <c> <dklen>      -> d=<hex>
+   DB <key8> <salt> <count> <block8> <dec> -> d=<hex>                                         */
+#include "alg-md4.h"
+#include "alg-md5.h"
+#include "alg-sha1.h"
+#include "alg-sha256.h"
+#include "alg-sha512.h"
+#include "alg-hmac-sha1.h"
+#include "alg-gost3411-2012-hmac.h"
+#include "alg-des.h"
+
+static int all_zero (const void *p, size_t n)
+{ const unsigned char *b = p; for (size_t i = 0; i < n; i++) if (b[i]) return 0; return 1; }
+
+/* copy into an exact-size block at the requested misalignment */
+static unsigned char *place (const unsigned char *src, size_t len, int align, unsigned char **base)
+{
+  *base = malloc (len + 16 + 1);
+  unsigned char *p = *base + (align & 15);
+  memcpy (p, src, len);
+  return p;
+}
+
+static void op_hash (int n, char **tok)
+{
+  if (n < 3) { printf ("bad-op\n"); return; }
+  const char *alg = tok[1]; int align = atoi (tok[2]);
+  unsigned char dig[64]; size_t dl = 0; int cz = 0;
+  MD4_CTX c4; MD5_CTX c5; struct sha1_ctx c1; SHA256_CTX c256; SHA512_CTX c512; GOST34112012Context cg;
+  int a = !strcmp (alg, "md4") ? 0 : !strcmp (alg, "md5") ? 1 : !strcmp (alg, "sha1") ? 2 : !strcmp (alg, "sha256") ? 3
+        : !strcmp (alg, "sha512") ? 4 : !strcmp (alg, "gost256") ? 5 : !strcmp (alg, "gost512") ? 6 : -1;
+  if (a < 0) { printf ("bad-op\n"); return; }
+  switch (a) {
+    case 0: MD4_Init (&c4); break; case 1: MD5_Init (&c5); break; case 2: sha1_init_ctx (&c1); break;
+    case 3: SHA256_Init (&c256); break; case 4: SHA512_Init (&c512); break;
+    case 5: GOST34112012Init (&cg, 256); break; case 6: GOST34112012Init (&cg, 512); break; }
+  for (int i = 3; i < n; i++)
+    {
+      int isn; size_t l; unsigned char *raw = unhex (tok[i], &l, &isn), *base;
+      unsigned char *p = place (raw ? raw : (unsigned char *)"", l, align + i, &base);
+      switch (a) {
+        case 0: MD4_Update (&c4, p, l); break; case 1: MD5_Update (&c5, p, l); break; case 2: sha1_process_bytes (p, &c1, l); break;
+        case 3: SHA256_Update (&c256, p, l); break; case 4: SHA512_Update (&c512, p, l); break;
+        default: GOST34112012Update (&cg, p, l); break; }
+      free (base); free (raw);
+    }
+  switch (a) {
+    case 0: MD4_Final (dig, &c4); dl = 16; cz = all_zero (&c4, sizeof c4); break;
+    case 1: MD5_Final (dig, &c5); dl = 16; cz = all_zero (&c5, sizeof c5); break;
+    case 2: sha1_finish_ctx (&c1, dig); dl = 20; cz = all_zero (&c1, sizeof c1); break;
+    case 3: SHA256_Final (dig, &c256); dl = 32; cz = all_zero (&c256, sizeof c256); break;
+    case 4: SHA512_Final (dig, &c512); dl = 64; cz = all_zero (&c512, sizeof c512); break;
+    case 5: GOST34112012Final (&cg, dig); dl = 32; cz = all_zero (&cg, sizeof cg); break;
+    case 6: GOST34112012Final (&cg, dig); dl = 64; cz = all_zero (&cg, sizeof cg); break; }
+  printf ("d="); puthex (dig, dl); printf (" ctxzero=%d\n", cz);
+}
+
+static void op_hmac (int n, char **tok)
+{
+  if (n < 4) { printf ("bad-op\n"); return; }
+  int isn; size_t kl, tl; unsigned char *k0 = unhex (tok[2], &kl, &isn), *t0 = unhex (tok[3], &tl, &isn), *kb, *tb;
+  unsigned char *k = place (k0 ? k0 : (unsigned char *)"", kl, 3, &kb), *t = place (t0 ? t0 : (unsigned char *)"", tl, 5, &tb);
+  unsigned char dig[64]; size_t dl = 0;
+  if (!strcmp (tok[1], "sha1")) { hmac_sha1_process_data (t, tl, k, kl, dig); dl = 20; }
+  else if (!strcmp (tok[1], "sha256")) { HMAC_SHA256_Buf (k, kl, t, tl, dig); dl = 32; }
+  else if (!strcmp (tok[1], "gost256"))
+    {
+      if (kl < 32 || kl > 64) { printf ("d=precondition\n"); goto out; }
+      gost_hmac_256_t gb; gost_hmac256 (k, kl, t, tl, dig, &gb); dl = 32;
+      if (!all_zero (&gb, sizeof gb)) { printf ("d=NOTWIPED\n"); goto out; }
+    }
+  printf ("d="); puthex (dig, dl); printf ("\n");
+out:
+  free (kb); free (tb); free (k0); free (t0);
+}
+
+static void op_pbkdf2 (int n, char **tok)
+{
+  if (n < 5) { printf ("bad-op\n"); return; }
+  int isn; size_t pl, sl; unsigned char *p0 = unhex (tok[1], &pl, &isn), *s0 = unhex (tok[2], &sl, &isn), *pb, *sb;
+  unsigned char *p = place (p0 ? p0 : (unsigned char *)"", pl, 1, &pb), *s = place (s0 ? s0 : (unsigned char *)"", sl, 7, &sb);
+  unsigned long c = strtoul (tok[3], 0, 10); size_t dk = strtoul (tok[4], 0, 10);
+  unsigned char *out = malloc (dk ? dk : 1);
+  PBKDF2_SHA256 (p, pl, s, sl, c, out, dk);
+  printf ("d="); puthex (out, dk); printf ("\n");
+  free (out); free (pb); free (sb); free (p0); free (s0);
+}
+
+static void op_desblock (int n, char **tok)
+{
+  if (n < 6) { printf ("bad-op\n"); return; }
+  int isn; size_t kl, bl; unsigned char *k = unhex (tok[1], &kl, &isn), *b = unhex (tok[4], &bl, &isn);
+  unsigned long salt = strtoul (tok[2], 0, 10), count = strtoul (tok[3], 0, 10); int dec = atoi (tok[5]);
+  struct des_ctx ctx; unsigned char out[8];
+  if (kl != 8 || bl != 8) { printf ("bad-op\n"); free (k); free (b); return; }
+  des_set_key (&ctx, k); des_set_salt (&ctx, (uint32_t)salt);
+  des_crypt_block (&ctx, out, b, (unsigned)count, dec != 0);
+  printf ("d="); puthex (out, 8); printf ("\n");
+  free (k); free (b);
+}
+
+static int op_prim_dispatch (int n, char **tok)
+{
+  if (!strcmp (tok[0], "H")) { op_hash (n, tok); return 1; }
+  if (!strcmp (tok[0], "HM")) { op_hmac (n, tok); return 1; }
+  if (!strcmp (tok[0], "PB")) { op_pbkdf2 (n, tok); return 1; }
+  if (!strcmp (tok[0], "DB")) { op_desblock (n, tok); return 1; }
+  return 0;
+}
